@@ -3494,7 +3494,24 @@ AUX = re.compile(r'\w+_loop\d+$')
 AUX = re.compile(AUX.pattern + r'|\w+_asserts$')     # the `assert!`s of a function stay with it, like its loops
 
 
+REF = os.path.join(GEN, 'ref')     # committed copies of the generated files (`<file>.ref`): what the hand-written bridge lemmas were written against
+
+
+def skeleton(text):
+    """the SHAPE of a translated function: the header (binder TYPES and result type, names dropped) of its definition and of
+    each of its auxiliary loop definitions, in order.  A token-level edit of a body (constant, index, operator, callee) keeps
+    it; a restructuring (another loop nest, another loop state, another parameter list) changes it."""
+    heads = []
+    for m in re.finditer(r'^@\[gen_defs\] def (\w+)(.*?)(?::=|\n\s*\|)', text, re.M | re.S):
+        h = re.sub(r'\(\s*[\w\']+(?:\s+[\w\']+)*\s*:', '(', m.group(2))      # `(a b : T)` -> `(T)`
+        heads.append(m.group(1) + ' ' + re.sub(r'\s+', ' ', h).strip())
+    return heads
+
+
 def read_last(path):
+    ref = os.path.join(REF, os.path.basename(path) + '.ref')
+    if os.path.exists(ref):
+        path = ref       # the committed reference, not the working file (which an earlier run on a changed source has overwritten)
     """previously generated definitions, by (namespace, name): kept for functions that cannot be re-translated;
     an auxiliary loop definition stays with the function it precedes; structures by (namespace, 'structure Name')"""
     last = {}
@@ -3520,7 +3537,7 @@ def read_last(path):
 
 
 def main():
-    report = dict(translated=[], kept_last=[], missing=[])
+    report = dict(translated=[], kept_last=[], missing=[], reshaped=[])
     reg = {}     # unit key -> (namespace, signatures of the functions translated NOW)
     STRUCTS.clear()
     MUTP.clear()
@@ -3572,6 +3589,24 @@ def main():
                 order, out, failed, sigs = translate_file(path, ns, self_ty, u.get('want'), u.get('private', False), ext, u.get('cut'))
             except (Unsupported, OSError) as ex:
                 order, out, failed, sigs = [], {}, {'*': str(ex)}, {}
+            # a function whose SHAPE differs from the committed reference translation (another loop nest / loop state /
+            # parameter list): the hand-written bridge lemmas were written against the old shape and cannot apply to the new
+            # one, whatever it computes — it is treated like a function that left the subset: the reference translation is
+            # kept, the evidence lists it under `reshaped`, and the behavioural correspondence carries the tie for it
+            reshaped = {}
+            for n in list(out):
+                if (ns, n) in last and skeleton(out[n]) != skeleton(last[(ns, n)]):
+                    reshaped[n] = 'shape changed: ' + ' | '.join(skeleton(out[n]))[:300]
+            grew = True
+            while grew:
+                grew = False
+                for n in list(out):
+                    if n not in reshaped and any(re.search(re.escape(f'{ns}.{f}') + r'(?![\w.])', out[n]) for f in reshaped):
+                        reshaped[n] = 'calls a reshaped function'; grew = True
+            for n, why in reshaped.items():
+                out.pop(n); failed[n] = why; sigs.pop(n, None)
+                if (ns, n) in last:
+                    report['reshaped'].append(dict(fn=f'{ns}.{n}', why=why))
             reg[u['key']] = (ns, sigs)
             names = list(order)
             for w in u.get('want') or []:
@@ -3608,6 +3643,13 @@ def main():
         os.makedirs(GEN, exist_ok=True)
         if not os.path.exists(out_path) or open(out_path).read() != new:
             open(out_path, 'w').write(new)
+    if '--accept' in sys.argv:
+        # the developer accepts the current translation as the reference the bridge lemmas are written against
+        os.makedirs(REF, exist_ok=True)
+        for fname, _, _ in FILES:
+            src_ = os.path.join(GEN, fname)
+            if os.path.exists(src_):
+                open(os.path.join(REF, fname + '.ref'), 'w').write(open(src_).read())
     json.dump(report, open(os.path.join(GEN, 'report.json'), 'w'), indent=1)
     if '-v' in sys.argv:
         print(json.dumps(report, indent=1))
